@@ -137,6 +137,32 @@ def case_tone(c):
                 or bool(rp['ascending']) != bool(asc):
             V('raw_params', 'get_raw_params -> fch1=%r chan_bw=%r ascending=%r; antenna has %r, %r, %r'
               % (rp['fch1'], rp['chan_bw'], rp['ascending'], fch1, sgn * chan_bw, asc), site='raw_utils.get_raw_params')
+        # a SECOND recording from the same backend and antenna: the antenna's timeline continues, so a chirp is found
+        # where f_start + drift*t puts it at the (later) time of that recording -- not where it started
+        if c.get('second_recording') and not second and not viol:
+            t_elapsed = (T * P + M * P) * (1.0 / rate)              # samples drawn by recording 1 (incl. the warm-up window)
+            for fn in guppi.list_files(stem):
+                os.remove(fn)
+            be.record(output_file_stem=stem, num_blocks=1, length_mode='num_blocks', header_dict={}, digitize=c['digitize'],
+                      load_template=False, verbose=False)
+            blk2 = guppi.parse_file(stem + '.0000.raw')[0]
+            dec2 = guppi.decode_payload(blk2['payload'], 1, obsnchan, npol, 8)[0]
+            p = tone_streams[0]
+            pw2 = np.stack([fine(dec2[i, :, p], N) for i in range(obsnchan)])
+            irow = coarse - sc
+            for s_ in range(pw2.shape[1]):
+                t_mid = t_elapsed + (s_ * N + N / 2 + M / 2) * hbin
+                rel = c['offset'] + c['drift'] * (t_mid / (N * hbin))
+                if abs(rel) > N / 2 - 2 - 0.5 * abs(c['drift']):
+                    continue
+                k = int(np.argmax(pw2[irow, s_, :]))
+                f_peak = obsfreq + (irow - (obsnchan - 1) / 2) * cbw + (k - N / 2) * cbw / N
+                f_true = f0 + drift * t_mid
+                judged += 1
+                if abs(f_peak - f_true) > abs(cbw) / N * (1.0 + 0.5 * abs(c['drift'])) + 1e-9 * abs(f_true):
+                    V('tone_misplaced_second_recording', 'second recording from the same antenna: fine spectrum %d peaks at %.6f Hz, the chirp is at '
+                      '%.6f Hz by then (%.2f fine bins away; it started at %.6f Hz)' % (s_, f_peak, f_true, (f_peak - f_true) / (abs(cbw) / N), f0))
+                    break
         res['nontrivial'] = [engine.sha(c)] if judged else []
         res['ambiguous'] = amb
         res['extra'] = {'fine_spectra_judged': judged}
@@ -203,6 +229,15 @@ def case_reducer(c):
         if got.shape != want.shape or not np.allclose(got, want, rtol=1e-9, atol=1e-9):
             V('reduction', 'get_waterfall_from_raw(int_factor=%d, fftlength=%d) has shape %s; the reduction of the first block with '
               'that FFT length and integration factor has shape %s' % (I, N, got.shape, want.shape), 'waterfall.get_waterfall_from_raw')
+        # the published positional order is (raw_filename, block_size, num_chans, int_factor, fftlength)
+        gotp = svw.get_waterfall_from_raw(stem + '.0000.raw', T * nc * 4, nc, I, N)
+        if gotp.shape != want.shape or not np.allclose(gotp, want, rtol=1e-9, atol=1e-9):
+            V('reduction_positional', 'get_waterfall_from_raw(file, block_size, num_chans, %d, %d) [positional: int_factor, fftlength] has shape %s, '
+              'expected %s' % (I, N, gotp.shape, want.shape), 'waterfall.get_waterfall_from_raw')
+        gp = svw.get_pfb_waterfall(dec[:, :, 0].T.astype(complex), dec[:, :, 1].T.astype(complex), N, I)
+        if gp.shape != want.shape or not np.allclose(gp, want, rtol=1e-9, atol=1e-9):
+            V('reduction_positional', 'get_pfb_waterfall(x, y, %d, %d) [positional: fftlength, int_factor] has shape %s, expected %s'
+              % (N, I, gp.shape, want.shape), 'waterfall.get_pfb_waterfall')
     except Exception as e:
         V('raised', '%s: %s' % (type(e).__name__, e), 'waterfall.get_waterfall_from_raw')
     finally:
@@ -243,6 +278,9 @@ def run(ctx):
                 for off2, dr2 in ((3, 0), (-2, 1)):
                     two.append(dict(base, second=dict(coarse=ch, offset=off2, drift=dr2)))
     cases = cases + two
+    # a second recording from the same antenna for slowly drifting tones (the chirp must still be inside its channel)
+    cases = cases + [dict(b, second_recording=True) for b in cases
+                     if not b.get('second') and b['drift'] in (1, -1) and b['offset'] in (1, -1, 0.37) and b['digitize']]
     ctx.pmap(case_tone, cases)
     red = []
     for N in (1, 2, 4, 8):
